@@ -42,7 +42,7 @@ pub fn case(ctx: &Ctx, bytes: &[u8]) -> Outcome {
 /// Deep captures: a continuation captured under `depth` pending non-tail calls (the
 /// stack is hundreds of slots deep), stored, and re-entered from the same form, from a
 /// shallow later form, from a deeper later form, and after a failed evaluation.
-fn deep_program(c: &mut mwv_core::choice::Choices) -> Vec<mwv_core::sx::Sx> {
+pub fn deep_program(c: &mut mwv_core::choice::Choices) -> Vec<mwv_core::sx::Sx> {
     let depth = *c.pick(&[3usize, 10, 41, 42, 43, 60, 100, 150, 300, 600][..]);
     let depth2 = *c.pick(&[0usize, 5, 50, 200, 400][..]);
     let reenter = 1 + c.below(3);
